@@ -320,7 +320,7 @@ def arg_sets(client, rng):
             o = client.factory.create("{%s}Derived" % wsdlkit.TNS)
             o.a = "x & y"
             o.b = ""
-            o.loc = {"city": "Zürich", "_code": "ZH"}
+            o.loc = {"city": "Zürich", "_code": 'Z<&>"H\''}
         else:
             o = {"a": None}
         kw = {"o": o}
